@@ -61,6 +61,33 @@ func OracleC03(c *Case, r *Result) []Finding {
 			out = append(out, Finding{"committed-twice", fmt.Sprintf("message %d was committed %d times in one call", j, n)})
 		}
 	}
+	// an aborted DATA stays aborted: after DATA was accepted for a message whose producer fails, the server must not
+	// receive the end-of-data line nor any further command on that connection
+	{
+		cur, aborted := "", ""
+		for _, e := range r.Trace {
+			if aborted != "" {
+				switch e.Verb {
+				case "EOD-MISSING":
+				case "EOD":
+					out = append(out, Finding{"aborted-data-terminated", fmt.Sprintf("the producer of the message of %s failed after DATA, but the server received the end-of-data line (reply %d)", aborted, e.Code)})
+				default:
+					out = append(out, Finding{"command-after-aborted-data", fmt.Sprintf("the producer of the message of %s failed after DATA, but the server then received %q", aborted, e.Line)})
+				}
+				continue
+			}
+			if e.Verb == "MAIL" && e.Accepted {
+				cur = e.Arg
+			}
+			if e.Verb == "DATA" && e.Code == 354 {
+				for j, s := range c.Msgs {
+					if s.From == cur && r.Failed[j] {
+						aborted = cur
+					}
+				}
+			}
+		}
+	}
 	// end-of-data acknowledgements per envelope sender (the generator uses one sender per message)
 	acked := map[string]int{} // sender -> number of 250 replies at end-of-data
 	cur := ""
